@@ -30,7 +30,7 @@ ChunkSizes == {1, 2, 31, 32, 33, 64}
 NT == {C(k) : k \in ChunkSizes} \cup {EINTR}
 ReadScripts == {p \o <<tm>> : p \in SeqsUpTo(NT, L - 1), tm \in {EOF_, ERR(5)}}
 
-Case(op, s, d, i, c0, n, p) == [op |-> op, script |-> s, data |-> d, init |-> i, cap0 |-> c0, n |-> n, pieces |-> p]
+Case(op, s, d, i, c0, n, p) == [op |-> op, script |-> s, data |-> d, init |-> i, cap0 |-> c0, n |-> n, pieces |-> p, ff |-> 0]
 
 RteCases == {Case("read_to_end", s, IdData(Total(s)), IdInit(lc[1]), lc[2], 0, <<>>) : s \in ReadScripts, lc \in Inits}
 RexCases == {Case("read_exact", s, IdData(Total(s)), <<>>, 0, n, <<>>) : s \in ReadScripts, n \in {0, 1, 2, 32, 33, 65}}
@@ -65,8 +65,8 @@ BigCases == UNION {{Case("read_to_string", s, d, ic[1], ic[2], 0, <<>>) :
 WItems == {A(1), A(2), A(32), A(100), ZERO, EINTR, ERR(5)}
 WScripts == SeqsUpTo(WItems, L)
 WaCases == {Case("write_all", s, IdData(m), <<>>, 0, 0, <<m>>) : s \in WScripts, m \in {0, 1, 5, 33}}
-WfCases == {Case("write_fmt", s, IdData(5), <<>>, 0, 0, p) : s \in WScripts,
-                p \in {<<2, 0, 3>>, <<1, 1, 1, 1, 1>>, <<5>>, <<0, 5, 0>>}}
+WfCases == {[Case("write_fmt", s, IdData(5), <<>>, 0, 0, p) EXCEPT !.ff = f] : s \in WScripts,
+                p \in {<<2, 0, 3>>, <<1, 1, 1, 1, 1>>, <<5>>, <<0, 5, 0>>}, f \in {0, 1}}
 
 Cases == CASE Family = "rte" -> RteCases
            [] Family = "rex" -> RexCases
@@ -83,7 +83,7 @@ IdFamily == Family \in {"rte", "rex", "wa", "wf"}
 Emit ==
     pc = "done" =>
         PrintT(<<"B", ToJson([op |-> case.op, script |-> case.script, cap0 |-> case.cap0, n |-> case.n,
-                              pieces |-> case.pieces, ilen |-> Len(case.init), dlen |-> Len(case.data),
+                              pieces |-> case.pieces, ff |-> case.ff, ilen |-> Len(case.init), dlen |-> Len(case.data),
                               init |-> IF IdFamily THEN <<>> ELSE case.init,
                               data |-> IF IdFamily THEN <<>> ELSE case.data,
                               buf |-> IF IdFamily THEN <<>> ELSE vec,
